@@ -60,6 +60,33 @@ UNITS += [
          ),
 ]
 
+BK = "crates/core/src/commands/backup.rs"
+UNITS += [
+    # Parent::new: the struct literal at its end puts each switch into the field of the same name
+    Unit(name="parent_new_fields", file=PA, kind="block", within="pub(crate) fn new(",
+         anchor="Self {\n            tree_ids,", block_end="@fn_end",
+         block_sig="fn parent_new_fields(tree_ids: Vec<TreeIdW>, trees: Vec<(PTree, usize)>, ignore_ctime: bool, ignore_inode: bool) -> (r: ParentW)",
+         block_tail="",
+         functions=["archiver::parent::Parent::new (struct literal: which argument lands in which field)"],
+         rewrites=[Rw("Self {", "ParentW {", why="Self -> the stub struct with the same field names")],
+         contract="""
+    ensures /*@switches_land_in_their_fields*/ r.ignore_ctime == ignore_ctime && r.ignore_inode == ignore_inode,
+"""),
+    # ParentOptions::get_parent: the user's switches reach Parent::new in the right positions
+    Unit(name="get_parent_wiring", file=BK, kind="block", within="pub(crate) fn get_parent<S: IndexedTree>(",
+         anchor="(\n            parent_ids,", block_end="@fn_end",
+         block_sig="fn get_parent_wiring(this: &ParentOptionsW, repo: &VRepoW, parent_ids: Vec<SnapshotIdW>, parent_trees: Vec<TreeIdW>) -> (r: (Vec<SnapshotIdW>, ParentW))",
+         block_tail="",
+         functions=["commands::backup::ParentOptions::get_parent (tail: construction of the Parent from the options)"],
+         rewrites=[Rw("Parent::new(", "ParentW::vnew(", why="Parent::new -> stub carrying the postcondition of unit parent_new_fields"),
+                   Rw("self.", "this.", count=None, why="block of a method: self -> parameter")],
+         contract="""
+    ensures
+        // ctime is compared unless the user asked to ignore ctime, the inode unless they asked to ignore the inode
+        /*@user_switches_reach_the_parent*/ r.1.ignore_ctime == this.ignore_ctime && r.1.ignore_inode == this.ignore_inode,
+"""),
+]
+
 M = "archiver::parent::verif_kani::"
 KANI = [
     Harness(M + "c11_is_parent_requires_equal_metadata", kind="bounded",
